@@ -144,8 +144,12 @@ def replay_c03(col, w, b, names):
     src = b['src']
     sing = b['rows'][0].get('sing', False)
     ignored = [j for j, f in enumerate(src['flag']) if f in (0, 9)]
-    base = fw.project_info(w.fit(fw.make_source(src)))
+    info0 = w.fit(fw.make_source(src))
+    base = fw.project_info(info0)
     col.replayed += 1
+    if int(info0.source.n_data) != b['ndata']:
+        col.violation('C03:n_data', 'n_data %r, spec %r (only flags 1 and 4 count) for flags %r' % (info0.source.n_data, b['ndata'], src['flag']), describe(b))
+        return
     if not sing:
         bad = fw.compare_fit(base, names, b['rows'])
         if bad:
